@@ -11,7 +11,8 @@
     line_index.rs, to_proto.rs, from_proto.rs (explicit Panic outcomes). *)
 From Coq Require Import List NArith Bool.
 From TG.Model Require Import Chars LineIndex.
-From TG.Proofs Require Import LineIndexProofs LineIndexSpec LineIndexImpl LineIndexFloor LineIndexC10.
+From TG.Gen Require Import GenLineIndex.
+From TG.Proofs Require Import LineIndexProofs LineIndexSpec LineIndexImpl LineIndexFloor LineIndexC10 GenLineIndexEq.
 Import ListNotations.
 Open Scope N_scope.
 
@@ -127,6 +128,36 @@ Theorem C10_impl_every_offset : forall t : text, bytes t <= u32_max ->
              (exists p c s k, t = p ++ c :: s /\ 0 < k < utf8_len c /\ o = bytes p + k) \/ bytes t < o).
 Proof. exact to_proto_position_every_offset. Qed.
 
+(** The model IS the source: coq/gen/GenLineIndex.v is regenerated on every run by tools/translate/t_lineindex.py
+    from the current text of line_index.rs (every fn of impl LineIndex), to_proto.rs (position, range,
+    folding_range) and from_proto.rs (position, range); its functions src_* equal the hand model, for all inputs.
+    A semantic edit of those functions makes the translator refuse the source or breaks this obligation. *)
+Theorem C10_model_is_source :
+  (forall t, src_li_new t = li_new t) /\
+  (forall li pos, src_li_pos_to_line li pos = pos_to_line li pos) /\
+  (forall li line, src_li_line_to_pos li line = line_to_pos li line) /\
+  (forall li pos, src_li_utf16_col li pos = utf16_col li pos) /\
+  (forall li line col, src_li_offset_at li line col = offset_at li line col) /\
+  (forall li o, src_to_proto_position li o = to_proto_position li o) /\
+  (forall li r, src_to_proto_range li r = to_proto_range li r) /\
+  (forall li r, src_to_proto_folding_range li r = to_proto_folding_range li r) /\
+  (forall li p, src_from_proto_position li p = from_proto_position li p) /\
+  (forall li r, src_from_proto_range li r = from_proto_range li r).
+Proof. exact model_is_source. Qed.
+
+(** hence the refinement theorem holds for the rendering of the source itself *)
+Theorem C10_source_correct : forall t : text, bytes t <= u32_max ->
+  exists li, src_li_new t = Ok li /\
+    (forall o, on_char_boundary t o -> src_to_proto_position li o = Ok (pos_of t o)) /\
+    (forall o, exists p, src_to_proto_position li o = Ok p) /\
+    (forall l c, src_from_proto_position li (l, c) = Ok (off_of t l c)) /\
+    (forall a b, on_char_boundary t a -> on_char_boundary t b ->
+                 src_to_proto_range li (a, b) = Ok (pos_of t a, pos_of t b)) /\
+    (forall l1 c1 l2 c2, l1 < l2 \/ (l1 = l2 /\ c1 <= c2) ->
+                 src_from_proto_range li ((l1, c1), (l2, c2)) = Ok (off_of t l1 c1, off_of t l2 c2)) /\
+    (forall a b, src_to_proto_folding_range li (a, b) = Ok (fst (pos_of t a), fst (pos_of t b))).
+Proof. exact source_correct. Qed.
+
 (** pieces of the refinement, individually *)
 Theorem C10_impl_new : forall t : text, bytes t <= u32_max ->
   li_new t = Ok (mkLI t (encode t) (line_starts t)).
@@ -186,6 +217,8 @@ Print Assumptions C10_impl_correct.
 Print Assumptions C10_impl_folding_range.
 Print Assumptions C10_impl_wrappers.
 Print Assumptions C10_impl_every_offset.
+Print Assumptions C10_model_is_source.
+Print Assumptions C10_source_correct.
 Print Assumptions C10_impl_new.
 Print Assumptions C10_impl_partitioned.
 Print Assumptions C10_impl_char_boundary.
